@@ -51,10 +51,10 @@ type Edit struct {
 
 var editKinds = []string{
 	// breaking
-	"remove-service", "remove-method", "add-required-field", "optional-to-required", "change-field-type", "recase-method",
+	"remove-service", "remove-method", "add-required-field", "optional-to-required", "change-field-type", "recase-method", "renumber-field",
 	// compatible
 	"add-optional-field", "add-method", "add-service", "add-type", "add-const", "delete-struct", "reorder-defs", "reorder-fields",
-	"change-default", "rename-field", "required-to-optional", "add-include", "add-file", "delete-file", "add-required-field-with-default", "remove-field",
+	"change-default", "rename-field", "required-to-optional", "add-include", "add-file", "delete-file", "add-required-field-with-default", "remove-field", "change-keyword",
 }
 
 func (p *Program) structs(f *File) []*Def {
@@ -150,9 +150,46 @@ func (p *Program) ApplyEdit(hasAddFile, hasDelFile bool) *Edit {
 		}
 		s := ss[ch("edit.pick", len(ss))]
 		id := nextID(s.Fields)
-		fd := &FieldDef{ID: id, Name: fmt.Sprintf("addeddef%d", id), Type: &TypeRef{Base: "i32"}, Req: ReqRequired, Default: &ConstVal{Kind: CInt, Int: int64(id)}}
+		fd := &FieldDef{ID: id, Name: freshField(s.Fields, fmt.Sprintf("addeddef%d", id)), Type: &TypeRef{Base: "i32"}, Req: ReqRequired, Default: &ConstVal{Kind: CInt, Int: int64(id)}}
 		s.Fields = append(s.Fields, fd)
 		return &Edit{kind, false, fmt.Sprintf("field %s of %s in %s", fd.Name, s.Name, f.RelPath())}
+	case "renumber-field":
+		// a field keeps its name and moves to an identifier the struct has never used: the old
+		// field is gone, a new one has appeared (breaking when it is required)
+		ss := p.structs(f)
+		if len(ss) == 0 {
+			return nil
+		}
+		s := ss[ch("edit.pick", len(ss))]
+		if len(s.Fields) == 0 {
+			return nil
+		}
+		i := ch("edit.field", len(s.Fields))
+		nf := *s.Fields[i]
+		nf.ID = nextID(s.Fields) + ch("edit.id-gap", 3)
+		old := s.Fields[i].ID
+		s.Fields[i] = &nf
+		return &Edit{kind, nf.Req == ReqRequired && nf.Default == nil, fmt.Sprintf("field %s of %s in %s moved from id %d to id %d", nf.Name, s.Name, f.RelPath(), old, nf.ID)}
+	case "change-keyword":
+		// struct <-> exception, union -> struct: the definition keeps its name and its fields
+		var ss []*Def
+		for _, d := range f.Defs {
+			if !d.Removed && (d.Kind == KStruct || d.Kind == KUnion || d.Kind == KException && !p.thrown(d)) {
+				ss = append(ss, d)
+			}
+		}
+		if len(ss) == 0 {
+			return nil
+		}
+		s := ss[ch("edit.pick", len(ss))]
+		was := s.Kind
+		switch s.Kind {
+		case KStruct:
+			s.Kind = KException
+		default:
+			s.Kind = KStruct
+		}
+		return &Edit{kind, false, fmt.Sprintf("%s %s in %s is now a %s", was, s.Name, f.RelPath(), s.Kind)}
 	case "remove-field":
 		// dropping a field is not one of the documented breaking changes
 		var ss []*Def
@@ -189,7 +226,7 @@ func (p *Program) ApplyEdit(hasAddFile, hasDelFile bool) *Edit {
 				}
 			}
 		}
-		fd := &FieldDef{ID: id, Name: fmt.Sprintf("added%d", id), Type: &TypeRef{Base: baseTypes[ch("edit.base", len(baseTypes))]}, Req: ReqOptional}
+		fd := &FieldDef{ID: id, Name: freshField(s.Fields, fmt.Sprintf("added%d", id)), Type: &TypeRef{Base: baseTypes[ch("edit.base", len(baseTypes))]}, Req: ReqOptional}
 		if kind == "add-required-field" {
 			fd.Req = ReqRequired
 		} else if simrt.Flip("edit.optional-default", 0.3) {
@@ -614,4 +651,35 @@ func (p *Program) DropFile(j int) {
 	p.Files[j].Deleted = true
 	p.Files[j].Defs = nil
 	p.Files[j].Includes = nil
+}
+
+// thrown reports whether some method of the program lists d among its exceptions.
+func (p *Program) thrown(d *Def) bool {
+	for _, f := range p.Files {
+		for _, sv := range f.Defs {
+			for _, fn := range sv.Funcs {
+				for _, a := range fn.Excs {
+					if a.Type != nil && a.Type.Ref != nil && a.Type.Ref.Name == d.Name && a.Type.Ref.File == d.File {
+						return true
+					}
+				}
+			}
+		}
+	}
+	return false
+}
+
+// freshField is name, lengthened until no field of fs carries it (a renumbered field keeps
+// the name it was given under its old identifier).
+func freshField(fs []*FieldDef, name string) string {
+	for again := true; again; {
+		again = false
+		for _, f := range fs {
+			if f.Name == name {
+				name += "n"
+				again = true
+			}
+		}
+	}
+	return name
 }
